@@ -218,7 +218,7 @@ class UTPM(Ring, RawAlgorithmsMixIn):
 
 
     def get_flat(self):
-        return UTPM(self.data.reshape(self.data.shape[:2] + (numpy.prod(self.data.shape[2:]),) ))
+        return UTPM(self.data.reshape(self.data.shape[:2] + (int(numpy.prod(self.data.shape[2:], dtype=int)),) ))
 
     flat = property(get_flat)
 
@@ -1192,7 +1192,7 @@ class UTPM(Ring, RawAlgorithmsMixIn):
             raise NotImplementedError('not implemented yet')
 
         if axis is None:
-            tmp = numpy.prod(self.data.shape[2:])
+            tmp = int(numpy.prod(self.data.shape[2:], dtype=int))
             return UTPM(numpy.sum(self.data.reshape(self.data.shape[:2] + (tmp,)), axis = 2))
         else:
             if axis < 0:
